@@ -299,6 +299,20 @@ def check_requires(site, req):
 
 # ---------------------------------------------------------------------------
 
+_FP = None
+
+
+def fingerprints():
+    global _FP
+    if _FP is None:
+        try:
+            with open(os.path.join(VERIF, "tables", "fingerprints.json")) as fh:
+                _FP = json.load(fh)
+        except Exception:
+            _FP = {}
+    return _FP
+
+
 def run_inventory(R, rid, root_name, desc, restrict=None):
     """restrict: optional predicate(site) selecting the sub-inventory a property cares about"""
     P = R.prog
@@ -354,6 +368,18 @@ def run_inventory(R, rid, root_name, desc, restrict=None):
                     if entries.get(k2):
                         cand = list(entries[k2])
                         break
+            if not cand:
+                # the function that held a tabled site was renamed (or its statements moved to a new function) and the old name is gone:
+                # the row still applies to a site of the same kind and detail whose operands have the same name-independent fingerprint
+                fp = S.fingerprint(s)
+                for e2 in tab["discharged"]:
+                    k_fn, k_kind, k_detail = (e2["key"].split("|") + ["", ""])[:3]
+                    if k_kind != s.kind or k_detail != s.detail or P.fn(k_fn) is not None:
+                        continue
+                    if fp in fingerprints().get(e2["key"], []):
+                        cand.append(e2)
+                if cand:
+                    R.note("%s: %s matched the row of the vanished function %s by fingerprint" % (rid, key, cand[0]["key"].split("|")[0]))
             for e in cand:
                 if "requires" in e:
                     # mechanically re-proved per site: any number of sites may use the row, but a guard that licenses one
@@ -374,6 +400,7 @@ def run_inventory(R, rid, root_name, desc, restrict=None):
                     continue
                 used[id(e)] += 1
                 kind = "mechanical+table" if "requires" in e else "table"
+                R.__dict__.setdefault("fp_log", []).append((e["key"], S.fingerprint(s)))
                 R.ok(rid, key, "%s: %s" % (kind, e["reason"]), s.loc(), nontrivial=True)
                 if "requires" not in e:
                     R.assume("discharged by reason (%s): %s" % (key.split("|")[0].split("::")[-1], e["reason"]))
